@@ -62,19 +62,26 @@ def outerPadLoop (f : α → α → β) (lhs rhs : List α) (lo ro oo cnt : Nat)
     let y ← readAt rhs (ro + i)
     writeAt o (oo + i) (f x y)) out
 
+/-- one step of the loop over `outer_simd_enumerator`: a register (PACKED) or the scalar loop of `PAD_k` -/
+def outerStep (N : Nat) (packF : List α → List α → List β) (f : α → α → β)
+    (lhs rhs : List α) (outShape lhsShape rhsShape : List Nat) (o : List β) (i : Nat) : Option (List β) :=
+  let step := outerAt N outShape lhsShape rhsShape i
+  let ot := step.1
+  let lt := step.2.1
+  let rt := step.2.2
+  if ot.tag = Tag.PACKED then do
+    let x ← readAt lhs lt.off                       -- lhs always simd-broadcasted
+    let r ← loadu rhs rt.off N
+    storeu o ot.off (packF (List.replicate N x) r)
+  else
+    -- template_for<N-1>: only tags 1..N-1 do anything
+    if 1 ≤ ot.tag ∧ ot.tag < (N : Int) then
+      outerPadLoop f lhs rhs lt.off rt.off ot.off (N - ot.tag.toNat) o
+    else some o
+
 def simdOuter (N : Nat) (packF : List α → List α → List β) (f : α → α → β)
     (lhs rhs : List α) (outShape lhsShape rhsShape : List Nat) (out : List β) : Option (List β) :=
-  (List.range (outerSize N outShape lhsShape rhsShape)).foldlM (fun o i =>
-    let (ot, lt, rt) := outerAt N outShape lhsShape rhsShape i
-    if ot.tag = Tag.PACKED then do
-      let x ← readAt lhs lt.off                       -- lhs always simd-broadcasted
-      let r ← loadu rhs rt.off N
-      storeu o ot.off (packF (List.replicate N x) r)
-    else
-      -- template_for<N-1>: only tags 1..N-1 do anything
-      if 1 ≤ ot.tag ∧ ot.tag < (N : Int) then
-        outerPadLoop f lhs rhs lt.off rt.off ot.off (N - ot.tag.toNat) o
-      else some o) out
+  (List.range (outerSize N outShape lhsShape rhsShape)).foldlM (outerStep N packF f lhs rhs outShape lhsShape rhsShape) out
 
 /-- outer product, row-major: out[i ++ j] = f(a[i], b[j]) -/
 def scalarOuter (f : α → α → β) (a b : NDA α) : Option (List β) := do
